@@ -16,7 +16,7 @@ r_with=$(run_demo); grep -E "panicked|assert|test result" "$WT/target/demo.log" 
 echo "demo exit without patch: $r_without ; with patch: $r_with"
 # baseline with the patch only (demo removed so that it cannot influence anything)
 git reset -q --hard HEAD; git clean -fdq -e MUTANT -e target; git apply "$M/patch.diff"
-b=$(/tmp/baseline.sh "$WT" | head -1); echo "$b"
+b=$(/verif/bin/baseline "$WT" | head -1); echo "$b"
 ok=no
 if [ "$r_without" = 0 ] && [ "$r_with" != 0 ] && echo "$b" | grep -q "407/407"; then ok=yes; fi
 echo "CONFIRMED=$ok"
@@ -28,7 +28,7 @@ import json,sys,os
 d,prop,demo,b=sys.argv[1:5]
 meta={"property":prop,"demo_test":demo,
  "confirmed":{"demo_without_patch":"passes","demo_with_patch":"fails","baseline_with_patch":b},
- "ran":["cargo test --offline -p aquavm-air --features check_signatures,gen_signatures --test "+demo+" (with and without patch.diff)","/tmp/baseline.sh <worktree> with patch.diff applied"],
+ "ran":["cargo test --offline -p aquavm-air --features check_signatures,gen_signatures --test "+demo+" (with and without patch.diff)","bin/baseline <worktree> with patch.diff applied"],
  "needs":"see AGENT_README.md","detected_by":None}
 json.dump(meta,open(os.path.join(d,'meta.json'),'w'),indent=1)
 PY
